@@ -12,7 +12,7 @@ HOSTILE_TEXT = ["it's", '"quoted"', 'back\\slash', '100%', 'a_b', '', 'naïve', 
                 "a'b\"c", '\\', '%', '_', 'null', 'NULL', "';--", 'tab\tx', 'é', 'a' * 40]
 
 
-def gen_table(rng, ncols=None, nrows=None):
+def gen_table(rng, ncols=None, nrows=None, allow_nul=False):
     if nrows is None:
         nrows = rng.choice([0, 1, 2, 3, 5, 21, 30])
     cols = []
@@ -31,8 +31,11 @@ def gen_table(rng, ncols=None, nrows=None):
         elif kind == 'str_obj' and rng.random() < 0.5:
             pool = rng.sample(HOSTILE_TEXT, rng.randint(1, len(HOSTILE_TEXT)))
             col['values'] = [None if v is None else rng.choice(pool) for v in col['values']]
-        if kind == 'str_obj':
+        if kind == 'str_obj' and (not allow_nul or rng.random() < 0.85):
             col['values'] = [None if v is None else v.replace('\x00', '\x01') for v in col['values']]
+        elif kind == 'str_obj' and nrows >= 22 and rng.random() < 0.5:
+            # many distinct values, some with an embedded NUL (SQL's own LENGTH() stops counting there)
+            col['values'] = [None if v is None else ('v%02d' % i + ('\x00tail%d' % i if i % 5 == 0 else '')) for i, v in enumerate(col['values'])]
         if kind == 'float64':
             col['values'] = [v if v not in ('inf', '-inf', 'nan') else 1e300 for v in col['values']]
         if kind == 'dt_s':
